@@ -7,6 +7,8 @@ import (
 	"runtime"
 	"time"
 
+	"github.com/juev/hledger-lsp/internal/zzverif"
+
 	"go.lsp.dev/protocol"
 )
 
@@ -56,4 +58,15 @@ func (c *zzClient) last(uri protocol.DocumentURI) *protocol.PublishDiagnosticsPa
 		}
 	}
 	return nil
+}
+
+// zzNotify sends a notification. Under the engine the goroutine it spawns is a queued task the
+// harness runs explicitly; natively the goroutine is muted (zzMuted) and the harness calls
+// publishDiagnostics itself, so that no analysis runs concurrently with the harness.
+func zzNotify(s *Server, f func()) {
+	if zzverif.Engine() {
+		f()
+		return
+	}
+	zzMuted(s, s.client, f)
 }
